@@ -92,16 +92,11 @@ class ContainerBase:
         for prop_name, _ in self.sorted_container_properties():
             if prop_name not in skipped_properties:
                 new_value = getattr(other_container, prop_name)
-                setattr(self, prop_name, copy.deepcopy(new_value))
+                setattr(self, prop_name, copy.copy(new_value))
 
     def mk_copy(self, copy_node: bool = False) -> ContainerBase:
         """Make a copy of self."""
         copied = copy.copy(self)
-        # property values can be mutable objects (e.g. MetricValue, lists): the copy must not share them with self
-        for prop_name, _ in self.sorted_container_properties():
-            value = self.get_actual_value(prop_name)
-            if value is not None:
-                setattr(copied, prop_name, copy.deepcopy(value))
         if copy_node and self.node is not None:
             copied.node = xml_utils.copy_element(self.node)
         return copied
